@@ -24,6 +24,7 @@ func NewTransientLockMap() *TransientLockMap {
 // Lock acquires the lock for the specified key and returns true, unless the context finishes before the lock could be
 // acquired, in which case false is returned.
 func (l *TransientLockMap) Lock(ctx context.Context, key string) bool {
+	verifPoint("Lock.start", key)
 	lock := func() *countedLock {
 		// If there is high lock contention, we could use a readonly lock to check if the lock is already in the map (and
 		// thus no map writes are necessary), but this is complicated enough as it is so we skip that optimization for now.
@@ -43,11 +44,14 @@ func (l *TransientLockMap) Lock(ctx context.Context, key string) bool {
 		// have to unlock the map _before_ we start trying to lock the key (because locking the key could take a long time
 		// and we don't want to keep the map locked that whole time).
 		lock.refcount++ // incremented while holding _map_ lock
+		verifPoint("Lock.inMu", key)
 		return lock
 	}()
+	verifPoint("Lock.afterMu", key)
 
 	if !lock.Lock(ctx) {
 		l.returnLockObj(key, lock)
+		verifPoint("Lock.retDone", key)
 		return false
 	}
 	return true
@@ -55,6 +59,7 @@ func (l *TransientLockMap) Lock(ctx context.Context, key string) bool {
 
 // Unlock unlocks the lock for the specified key. Panics if the lock is not currently held.
 func (l *TransientLockMap) Unlock(key string) {
+	verifPoint("Unlock.start", key)
 	lock := func() *countedLock {
 		l.mu.Lock()
 		defer l.mu.Unlock()
@@ -63,11 +68,14 @@ func (l *TransientLockMap) Unlock(key string) {
 		if !ok {
 			panic(fmt.Sprintf("lock not held for key %s", key))
 		}
+		verifPoint("Unlock.inMu", key)
 		return lock
 	}()
+	verifPoint("Unlock.afterMu", key)
 
 	lock.Unlock()
 	l.returnLockObj(key, lock)
+	verifPoint("Unlock.retDone", key)
 }
 
 // Run runs the given callback while holding the lock, unless the context finishes before the lock could be
@@ -81,6 +89,7 @@ func (l *TransientLockMap) Run(ctx context.Context, key string, f func(ctx conte
 }
 
 func (l *TransientLockMap) returnLockObj(key string, lock *countedLock) {
+	verifPoint("ret.start", key)
 	l.mu.Lock()
 	defer l.mu.Unlock()
 
@@ -91,4 +100,5 @@ func (l *TransientLockMap) returnLockObj(key string, lock *countedLock) {
 	if lock.refcount == 0 {
 		delete(l.locks, key)
 	}
+	verifPoint("ret.inMu", key)
 }
